@@ -531,7 +531,7 @@ func concatKeepsEveryTuple(c *Ctx, rule string) {
 				"(batch).Concat can return without one of the two sets it collected: objects waiting for their retry time are dropped when more than a batch of ready objects is available — they are never sent again and Wait() never returns")
 		}
 	}
-	c.AtLeast(rule, "returns of Concat", n, 2)
+	c.AtLeast(rule, "returns of Concat", n, 1)
 }
 
 // agentReadErrorEndsTheRead (C06): a custom transfer agent that exits or closes its output yields an error (EOF)
@@ -629,21 +629,32 @@ func notAPointerIsNotAnError(c *Ctx, rule string) {
 			continue // the flush error, not the command's
 		}
 		n++
-		good := false
-		if ph, ok := a.(*ssa.Phi); ok {
+		// the value is — possibly merged with the flush error first — a φ that is nil on the edge coming from a
+		// block entered only when the not-a-pointer test held
+		var hasClearedNil func(v ssa.Value, d int) bool
+		hasClearedNil = func(v ssa.Value, d int) bool {
+			ph, ok := v.(*ssa.Phi)
+			if !ok || d > 3 {
+				return false
+			}
 			for i, e := range ph.Edges {
-				if !IsNilConst(e) || i >= len(ph.Block().Preds) {
+				if i >= len(ph.Block().Preds) {
 					continue
 				}
-				// the nil comes from a block entered only when the not-a-pointer test held
-				pb := ph.Block().Preds[i]
-				for cb := range cleared {
-					if cb == pb || cb.Dominates(pb) {
-						good = true
+				if IsNilConst(e) {
+					pb := ph.Block().Preds[i]
+					for cb := range cleared {
+						if cb == pb || cb.Dominates(pb) {
+							return true
+						}
 					}
+				} else if hasClearedNil(e, d+1) {
+					return true
 				}
 			}
+			return false
 		}
+		good := hasClearedNil(a, 0)
 		c.Check(good, rule, "filter-process:status-after-not-a-pointer-cleared#"+itoa(n), p.InstrPos(ci), "the status is computed from the error after the not-a-pointer case was cleared",
 			"filter-process computes a request's status from the error before the informational not-a-pointer error is cleared: content passed through unchanged is answered with status=error, Git discards it and (with filter.lfs.required) aborts the checkout")
 	}
@@ -1222,18 +1233,44 @@ func refspecQualifiesTypedNames(c *Ctx, rule string) {
 		}
 		return false, false
 	})
+	passSet := EdgeSet(pass)
 	n := 0
-	for _, r := range ReturnsOf(fn) {
-		for _, v := range ReturnValues(r, 0) {
-			tn, f, _, ok := FieldOf(v)
-			if !ok || tn != "git.Ref" || f != "Name" {
-				continue
+	// the bare name can be returned directly, or arrive at the return through φ-nodes (a named result assigned
+	// first and overwritten when there is a prefix): each way it arrives must lie behind the "no prefix" edge
+	var visit func(v ssa.Value, guard func() (bool, string), pos string, d int)
+	visit = func(v ssa.Value, guard func() (bool, string), pos string, d int) {
+		if ph, isPhi := v.(*ssa.Phi); isPhi && d < 4 {
+			for i, e := range ph.Edges {
+				if i >= len(ph.Block().Preds) {
+					continue
+				}
+				pb := ph.Block().Preds[i]
+				visit(e, func() (bool, string) {
+					for si, sb := range pb.Succs {
+						if sb == ph.Block() && passSet[Edge{pb, si}] {
+							return true, ""
+						}
+					}
+					return Guarded(fn.Blocks[0], lastInstr(pb), pass, nil)
+				}, pos, d+1)
 			}
-			n++
-			g, where := Guarded(fn.Blocks[0], r, pass, nil)
-			c.Check(g && nonVacuous(pass), rule, "refspec:bare-name-only-without-prefix#"+itoa(n), p.InstrPos(r), "the bare name is returned only for a ref type without a prefix",
-				"Refspec can return the bare name of a branch or tag ("+where+"): for a ref such as refs/heads/refs/heads/x the requests name refs/heads/x — another ref of the server")
+			return
 		}
+		tn, f, _, ok := FieldOf(v)
+		if !ok || tn != "git.Ref" || f != "Name" {
+			return
+		}
+		n++
+		g, where := guard()
+		c.Check(g && nonVacuous(pass), rule, "refspec:bare-name-only-without-prefix#"+itoa(n), pos, "the bare name is returned only for a ref type without a prefix",
+			"Refspec can return the bare name of a branch or tag ("+where+"): for a ref such as refs/heads/refs/heads/x the requests name refs/heads/x — another ref of the server")
+	}
+	for _, r := range ReturnsOf(fn) {
+		if len(r.Results) == 0 {
+			continue
+		}
+		r := r
+		visit(r.Results[0], func() (bool, string) { return Guarded(fn.Blocks[0], r, pass, nil) }, p.InstrPos(r), 0)
 	}
 	c.AtLeast(rule, "returns of the bare name in Refspec", n, 1)
 }
